@@ -3,7 +3,13 @@
 TLC enumerates (entry point x mutation operator x position class); the Go driver concretises every case at every member of
 valid instances and runs it on the REAL entry point under recover() + deadline + state digest; the recorded call/reply traces
 are validated by TLC against TraceRobust.tla (a lost reply = panic/hang violates Totality, reject with changed digest violates
-RejectUnchanged)."""
+RejectUnchanged).
+
+Entry points behind the DAG (payload.*): the payload of an accepted transaction is handed to the node's REAL subscribers
+(VCR ambassador for application/vc+json and application/ld+json;type=revocation, VDR ambassador for application/did+json)
+through real dag notifiers with the subscribers' own selection filters; JSON-LD payloads are delivered with the stale proof
+of the unmutated document and with a proof renewed over the mutated content (.resealed); an input such a subscriber refuses
+is delivered once more (action Redeliver of Robust.tla: retry / start-up replay / reprocess)."""
 import json, os, re, resource, shutil, subprocess, time
 from concurrent.futures import ThreadPoolExecutor
 from .. import vlib
@@ -54,8 +60,10 @@ def _replay_obj(f):
 # relative cost hints (measured ms per entry point in the quick tier); unknown entry points get the default
 _WEIGHT = {"pe.PresentationDefinition": 6000, "revocation.StatusList2021": 9800, "discovery.Register": 7500, "pe.PresentationSubmission": 5900,
            "v2.TransactionSet": 3800, "v2.TransactionList": 3800, "iam.JAR": 2900, "didjwk.Resolve": 1700, "verifier.VerifyVP.jwt": 1500,
-           "revocation.expand": 1800, "didkey.Resolve": 1500}
-_NODE = ("verifier.", "discovery.", "iam.", "revocation.StatusList2021", "v2.")
+           "revocation.expand": 1800, "didkey.Resolve": 1500,
+           "payload.did.create": 6000, "payload.did.update": 6000, "payload.vc": 4000, "payload.vc.resealed": 5000,
+           "payload.revocation": 2500, "payload.revocation.resealed": 3000}
+_NODE = ("verifier.", "discovery.", "iam.", "revocation.StatusList2021", "v2.", "payload.")
 
 
 def _shard(cases, n):
@@ -327,7 +335,8 @@ def run(prop, tier, seed, replay=None):
             continue
         n_findings += 1
         killed.append(f)
-        r0 = dict(trace=[dict(ev="call", id=f["call_id"], ep=st["cur"]["ep"], op=st["cur"]["op"], pos=st["cur"]["pos"], pre="-")])
+        r0 = dict(trace=[dict(ev="call", id=f["call_id"], ep=st["cur"]["ep"], op=st["cur"]["op"], pos=st["cur"]["pos"], pre="-",
+                             re=f["call_id"].endswith("r"))])
         by_sig.setdefault(json.dumps(_sig(f), sort_keys=True), []).append((r0, f))
     # a missed deadline is confirmed by re-running the input alone (the machine may have been busy): still no reply => hang
     slow = 0
@@ -359,7 +368,8 @@ def run(prop, tier, seed, replay=None):
     changed_ids = set(f["call_id"] for r in results for f in r["findings"] if f["kind"] == "state-changed")
     clean_ok = []
     for tr in clean:
-        clean_ok.append([e for e in tr if e["id"] not in changed_ids])
+        # (a redelivery is only a behaviour after its first delivery: both go when the first one is taken out)
+        clean_ok.append([e for e in tr if e["id"] not in changed_ids and not (e["id"].endswith("r") and e["id"][:-1] in changed_ids)])
     nchunks = 6
     chunks = [clean_ok[i::nchunks] for i in range(nchunks)]
     chunks = [c for c in chunks if c]
@@ -370,7 +380,8 @@ def run(prop, tier, seed, replay=None):
     reps = []
     for k in sorted(by_sig):
         r, f = by_sig[k][0]
-        evs = [e for e in r["trace"] if e["id"] == f["call_id"]]
+        ids = {f["call_id"]} | ({f["call_id"][:-1]} if f["call_id"].endswith("r") else set())   # a redelivery follows its first delivery
+        evs = [e for e in r["trace"] if e["id"] in ids]
         reps.append((k, f, evs))
 
     def check(item):
@@ -428,7 +439,8 @@ def run(prop, tier, seed, replay=None):
                rule="TLC enumerates every applicable (entry point, mutation operator, position class) case of Robust.tla (MCRobust.Applicable); "
                     "the Go concretiser applies the operator at EVERY member of that position class of every valid instance of the entry point "
                     "(plus hand written schema-valid-but-unusual inputs and seeded stacks of 2-4 random mutations for op=random) and runs the REAL "
-                    "entry point under recover() + 5 s deadline + state digest. evaluations = concrete calls; distinct_nontrivial = number of "
+                    "entry point under recover() + 5 s deadline + state digest; inputs of the payload.* entry points (subscribers of the DAG) "
+                    "that are refused are delivered a second time (Redeliver). evaluations = concrete calls; distinct_nontrivial = number of "
                     "distinct (entry point, operator, position) cases for which at least one concrete input was executed (cases without any "
                     "member of that class in the valid instances are listed under vacuous_cases and not counted)",
                samples=samples, cases_enumerated_by_tlc=len(cases), vacuous_cases=len(vacuous), vacuous_sample=vacuous[:10],
@@ -440,7 +452,8 @@ def run(prop, tier, seed, replay=None):
                models=models, states=sum(m.get("states", 0) for m in models), transitions=sum(m.get("transitions", 0) for m in models),
                exhaustive=False, harness_errors=len(errors), phase_wall_s=phases, deadline_misses_not_confirmed=slow, driver_processes_killed_by_an_input=len(deaths),
                inputs_that_kill_the_process_reproduced_alone=len(killed),
-               calls_replied_after_deadline_within_grace=sum(r.get("slow_calls", 0) for r in results))
+               calls_replied_after_deadline_within_grace=sum(r.get("slow_calls", 0) for r in results),
+               refused_inputs_redelivered=sum(r.get("redelivered", 0) for r in results))
     vlib.write_evidence(prop, tier, seed, "exploration", cov, time.time() - t0, len(rep.violations),
                         ["the universal quantifier over all byte strings is SAMPLED through the enumerated structure-aware mutation classes "
                          "(type confusion, missing/null member, extreme numbers, truncation, duplicate member, empty, deep nesting, "
@@ -455,6 +468,11 @@ def run(prop, tier, seed, replay=None):
                          "LD-proof presentations/credentials cannot be re-signed by the harness after mutation: for those the code behind the "
                          "signature check is reached through the JWT formats (signed by the harness over the mutated content) and with the "
                          "signature check switched off (verifier.Verify.ldp)",
+                         "payload receivers (payload.*): the event is handed to the subscribers the node registered at network.Transactions.Subscribe "
+                         "through non-persistent dag notifiers (first attempt synchronous, as dag.State does after WritePayload); the job shelf, the "
+                         "back-off timing and the NATS reprocess stream are not exercised (they call the same receivers); a redelivery is one "
+                         "immediate second call. Stale-proof credentials keep one id per case, so an input of a case that is stored shadows the "
+                         "later inputs of THAT case at the store's id check (resealed inputs get a fresh id each)",
                          "jwx, go-did, json-gold, protobuf and regexp2 are part of the executed code; defects in them count when reachable "
                          "through a repository entry point"])
     return rep.finish()
